@@ -58,7 +58,7 @@ class Z3Meter:
         z3.Solver.check = check
 
 
-def explore(cond, budget, per_path_timeout=None, max_samples=3, seed=0, max_cex=40):
+def explore(cond, budget, per_path_timeout=None, max_samples=5, seed=0, max_cex=40):
     core = _import_crosshair()
     from crosshair.core import (AnalysisOptionSet, DEFAULT_OPTIONS, Patched, COMPOSITE_TRACER,
                                 NoTracing, ResumedTracing, StateSpaceContext, StateSpace,
